@@ -7,12 +7,24 @@ import pipeline
 import talgen
 
 PID = 'C01'
-PROOF_MODULES = ['ChamProofs.Props.C01']
-THEOREMS = ['ChamVerif.C01_wrapOrder_observed', 'ChamVerif.C01_order', 'ChamVerif.applyWrappers_perm', 'ChamVerif.nsGet_perm']
+PROOF_MODULES = ['ChamProofs.Props.C01', 'ChamProofs.Props.C01Perm', 'ChamProofs.Props.C01Sem']
+THEOREMS = ['ChamVerif.C01_wrapOrder_observed', 'ChamVerif.C01_order', 'ChamVerif.applyWrappers_perm', 'ChamVerif.nsGet_perm',
+            'ChamVerif.nsGet_stmtPerm', 'ChamVerif.prepare_stmtPerm', 'ChamVerif.C01_element_order', 'ChamVerif.C01_program_order',
+            'ChamVerif.parseTag_wf', 'ChamVerif.C01_default_keeps', 'ChamVerif.C01_content_value', 'ChamVerif.C01_none_removes']
 LEVEL_TEXT = ('Proved in Lean: the nesting order of the statement nodes on one element is the one observed on the real MacroProgram in this '
               'run (C01_wrapOrder_observed, regenerated probe), in that order definitions precede every guard and condition precedes repeat '
               '(C01_order), the wrappers are applied by kind, not by the order they were collected (applyWrappers_perm), and statement '
-              'attributes are looked up by key so that any permutation with distinct keys gives the same lookups (nsGet_perm). The whole '
+              'attributes are looked up by key so that any permutation with distinct keys gives the same lookups (nsGet_perm). On the whole '
+              'program builder of the model (visit_element with every statement, METAL and i18n included): two parsed documents that differ '
+              'only in where statement attributes are written inside their start tags - any number of elements, any depth, the other '
+              'attributes and the namespace declarations keeping their relative order, no statement given twice - build the same program, body '
+              'node and macros, whenever the first builds (C01_program_order; per element C01_element_order, from: the statement dictionary '
+              'has the same lookups (nsGet_stmtPerm) and prepare_attributes sees the same list (prepare_stmtPerm); parseTag_wf: parser '
+              'records meet the hypothesis). The attribute records carry their source positions, so this is order-independence of the '
+              'builder for the same records; that positions only reach error locations is left to correspondence. On the interpreter, for the '
+              'node _make_content_node builds for tal:content / tal:replace, any expression, default content, scope and state: the default '
+              'marker renders exactly the original content, evaluated once (C01_default_keeps); any other value replaces it by its escaped or '
+              'converted string form without evaluating the original (C01_content_value); None emits nothing (C01_none_removes). The whole '
               'pipeline model (tokens, elements, nodes, interpreter) is tied to the code by end-to-end correspondence on generated '
               'templates x bindings (output and evaluation log); the language rules themselves are judged on the implementation by an '
               'independent constructive reference semantics and by the attribute-permutation metamorphic oracle.')
